@@ -13,7 +13,7 @@ NON_ASCII = " \u2014 g\u00e9n\u00e9r\u00e9 \u0e2a\u0e23\u0e49\u0e32\u0e07 \u751f
 
 COMMON = {"if": (1, 1), "ifelse": (2, 2), "for": (1, 1), "while": (1, 1)}
 EXTRA = {
-    "py": {"with": (1, 1), "try": (2, 4), "elif": (2, 4), "match": (1, 3), "asyncfor": (1, 1), "asyncwith": (1, 1)},
+    "py": {"with": (1, 1), "try": (2, 4), "trystar": (2, 3), "elif": (2, 4), "match": (1, 3), "asyncfor": (1, 1), "asyncwith": (1, 1)},
     "ts": {"forin": (1, 1), "forof": (1, 1), "dowhile": (1, 1), "try": (2, 3), "switch": (1, 3)},
     "rs": {"loop": (1, 1), "match": (1, 3), "closure": (1, 1), "iflet": (1, 1), "whilelet": (1, 1), "asyncblock": (1, 1)},
 }
@@ -211,6 +211,15 @@ def _py_block(o: Out, block, lv: int, uid):
             if len(bl) >= 3:
                 o.emit(lv, "finally:")
                 _py_block(o, bl[-1], lv + 1, uid)
+        elif kind == "trystar":
+            # exception groups (3.11): try / except* [/ finally]
+            o.emit(lv, "try:")
+            _py_block(o, bl[0], lv + 1, uid)
+            o.emit(lv, "except* Err_%s:" % uid())
+            _py_block(o, bl[1], lv + 1, uid)
+            if len(bl) == 3:
+                o.emit(lv, "finally:")
+                _py_block(o, bl[2], lv + 1, uid)
         elif kind == "match":
             o.emit(lv, "match a:")
             for i, b in enumerate(bl):
